@@ -440,31 +440,38 @@ Definition FUEL := 40.
 
 Definition fdata (f : filt) : list string := data_attrs (fdparams f) (finit f).
 Definition fassigned (f : filt) : list string := map fst (finit f).
-Definition fcfg (f : filt) : list string := filter (fun a => negb (mem a (fdata f))) (fassigned f).
+Definition fcfg (f : filt) : list string := let D := fdata f in filter (fun a => negb (mem a D)) (fassigned f).
 
 (* the checker.  G = global state the statement admits as an explicit input (the NumPy seed);
-   E = attributes admitted although they are assigned from data (used only by `_partial` statements) *)
-Definition access_ok (G E : list string) (f : filt) (a : access) : bool :=
+   E = attributes admitted although they are assigned from data (used only by `_partial` statements);
+   C, K, D = configuration, carried and data attributes (computed once) *)
+Definition access_ok_pre (G E C K D : list string) (a : access) : bool :=
   match a with
-  | ARd x => mem x E || ((mem x (fcfg f) || mem x (fcarried f)) && negb (mem x (fdata f)))
-  | AWr x => mem x (fcarried f)
+  | ARd x => mem x E || ((mem x C || mem x K) && negb (mem x D))
+  | AWr x => mem x K
   | AGl g => mem g G
   end.
+Definition access_ok (G E : list string) (f : filt) (a : access) : bool :=
+  access_ok_pre G E (fcfg f) (fcarried f) (fdata f) a.
 
 Definition frame_ok_gen (G E : list string) (f : filt) (u : string) : bool :=
+  let D := fdata f in let C := fcfg f in
   mem u (fupdates f) && saturated (fmethods f) FUEL (Call u) &&
-  taint_closed (fdparams f) (finit f) (fdata f) &&
-  forallb (access_ok G E f) (foot (fmethods f) FUEL (Call u)).
+  taint_closed (fdparams f) (finit f) D &&
+  forallb (access_ok_pre G E C (fcarried f) D) (foot (fmethods f) FUEL (Call u)).
 
 Definition frame_ok := frame_ok_gen [] [].
 
-Definition loop_ok (f : filt) (l : loopfact) : bool :=
-  mem (lcallee l) (fupdates f) && (if lprev l then Nat.eqb (llo l) 1 else true) &&
-  forallb (fun d => mem d (fdata f)) (ldata l) &&
-  forallb (fun e => mem e (fcfg f)) (lextra l).
-(* _compute_all is made of loops  Q[t] = update(Q[t-1], data[t], cfg...)  only, at least one *)
+Definition loop_ok_pre (U C D : list string) (l : loopfact) : bool :=
+  mem (lcallee l) U && (if lprev l then Nat.eqb (llo l) 1 else true) &&
+  forallb (fun d => mem d D) (ldata l) &&
+  forallb (fun e => mem e C) (lextra l).
+(* _compute_all is made of loops  Q[t] = update(Q[t-1], data[t], cfg...)  only, at least one:
+   the callee is a declared per-sample entry point, a loop that feeds back Q[t-1] starts at t = 1, every indexed
+   argument is a constructor-data attribute, every other argument a configuration attribute *)
 Definition loops_ok (f : filt) : bool :=
-  Nat.eqb (fbadloops f) 0 && negb (Nat.eqb (length (floops f)) 0) && forallb (loop_ok f) (floops f).
+  let D := fdata f in let C := fcfg f in
+  Nat.eqb (fbadloops f) 0 && negb (Nat.eqb (length (floops f)) 0) && forallb (loop_ok_pre (fupdates f) C D) (floops f).
 
 (* the footprint of instance number i of a filter: configuration, carried state, admitted extras and globals *)
 Definition Fof (G E : list string) (f : filt) (i : nat) (l : loc) : Prop :=
@@ -483,11 +490,11 @@ Section Sound.
 
   Lemma frame_reads G E f u i : frame_ok_gen G E f u = true -> reads_only (Fof G E f i) (ustep f i u).
   Proof.
-    unfold frame_ok_gen. rewrite !andb_true_iff. intros [[[_ _] _] Hall]. rewrite forallb_forall in Hall.
+    unfold frame_ok_gen. cbv zeta. rewrite !andb_true_iff. intros [[[_ _] _] Hall]. rewrite forallb_forall in Hall.
     intros s s' x Ha. unfold ustep, mcall.
     destruct (@exec_noninterference Val mix wr gl test count (fmethods f) i FUEL (Call u) (Fof G E f i)) with (s := s) (s' := s') (v := x)
       as [Ev Es]; [|exact Ha|].
-    - intros l [[a [El Hin]]|[g [El Hin]]]; subst l; specialize (Hall _ Hin); cbn [access_ok] in Hall.
+    - intros l [[a [El Hin]]|[g [El Hin]]]; subst l; specialize (Hall _ Hin); cbn [access_ok_pre] in Hall.
       + split; [reflexivity|]. apply orb_true_iff in Hall. destruct Hall as [H|H]; [left; apply mem_In; exact H|].
         apply andb_true_iff in H. destruct H as [H _]. apply orb_true_iff in H.
         destruct H as [H|H]; apply mem_In in H; auto.
@@ -498,11 +505,11 @@ Section Sound.
 
   Lemma frame_writes G E f u i : frame_ok_gen G E f u = true -> writes_only (Fof G E f i) (ustep f i u).
   Proof.
-    unfold frame_ok_gen. rewrite !andb_true_iff. intros [[[_ _] _] Hall]. rewrite forallb_forall in Hall.
+    unfold frame_ok_gen. cbv zeta. rewrite !andb_true_iff. intros [[[_ _] _] Hall]. rewrite forallb_forall in Hall.
     intros s x l Hn. unfold ustep, mcall.
     pose proof (@exec_confined Val mix wr gl test count (fmethods f) i FUEL (Call u) s x l) as Hc.
     destruct (exec mix wr gl test count (fmethods f) i FUEL (Call u) s x) as [s1 v1]. cbn [fst snd] in *. apply Hc.
-    intros [[a [El Hin]]|[g [El Hin]]]; subst l; specialize (Hall _ Hin); cbn [access_ok] in Hall; apply Hn; cbn [Fof].
+    intros [[a [El Hin]]|[g [El Hin]]]; subst l; specialize (Hall _ Hin); cbn [access_ok_pre] in Hall; apply Hn; cbn [Fof].
     - split; [reflexivity|]. right; right. apply mem_In; exact Hall.
     - apply mem_In; exact Hall.
   Qed.
@@ -511,22 +518,22 @@ Section Sound.
   Lemma frame_untruncated G E f u i : frame_ok_gen G E f u = true ->
     forall s x, exec mix wr gl test count (fmethods f) i (S FUEL) (Call u) s x = exec mix wr gl test count (fmethods f) i FUEL (Call u) s x.
   Proof.
-    unfold frame_ok_gen. rewrite !andb_true_iff. intros [[[_ Hs] _] _] s x. apply saturated_stable; exact Hs.
+    unfold frame_ok_gen. cbv zeta. rewrite !andb_true_iff. intros [[[_ Hs] _] _] s x. apply saturated_stable; exact Hs.
   Qed.
 
   (* every attribute the update may read is not assigned from constructor data (unless explicitly admitted) *)
   Lemma frame_reads_no_data G E f u : frame_ok_gen G E f u = true ->
     forall a, In (ARd a) (foot (fmethods f) FUEL (Call u)) -> In a E \/ ~ In a (fdata f).
   Proof.
-    unfold frame_ok_gen. rewrite !andb_true_iff. intros [_ Hall] a Hin. rewrite forallb_forall in Hall.
-    specialize (Hall _ Hin). cbn [access_ok] in Hall. apply orb_true_iff in Hall. destruct Hall as [H|H]; [left; apply mem_In; exact H|].
+    unfold frame_ok_gen. cbv zeta. rewrite !andb_true_iff. intros [_ Hall] a Hin. rewrite forallb_forall in Hall.
+    specialize (Hall _ Hin). cbn [access_ok_pre] in Hall. apply orb_true_iff in Hall. destruct Hall as [H|H]; [left; apply mem_In; exact H|].
     right. apply andb_true_iff in H. destruct H as [_ H]. apply negb_true_iff in H. intro Hi. apply mem_In in Hi. congruence.
   Qed.
 
   Lemma frame_no_global f u : frame_ok f u = true -> forall g, ~ In (AGl g) (foot (fmethods f) FUEL (Call u)).
   Proof.
-    unfold frame_ok, frame_ok_gen. rewrite !andb_true_iff. intros [_ Hall] g Hin. rewrite forallb_forall in Hall.
-    specialize (Hall _ Hin). cbn [access_ok] in Hall. discriminate.
+    unfold frame_ok, frame_ok_gen. cbv zeta. rewrite !andb_true_iff. intros [_ Hall] g Hin. rewrite forallb_forall in Hall.
+    specialize (Hall _ Hin). cbn [access_ok_pre] in Hall. discriminate.
   Qed.
 
   Lemma Fof_disjoint f g i j l : i <> j -> Fof [] [] f i l -> Fof [] [] g j l -> False.
